@@ -207,8 +207,13 @@ func TestDrv_C11(t *testing.T) {
 						}
 					}
 					m.Close()
-					if order == 1 {
-						m.Close() // closing again must not move a percentile
+					if order >= 1 {
+						// another Metrics starts its life in between (a second report in the same process); closing this one again
+						// must not move a percentile
+						var other vegeta.Metrics
+						other.Add(&vegeta.Result{Code: 200, Timestamp: time.Unix(1600000000, 0), Latency: 1234567 * time.Hour / 1000})
+						_ = other.Latencies.Quantile(0.5)
+						m.Close()
 					}
 					tr.Emit("Reset", KV{"n": n, "allequal": sorted[0] == sorted[n-1], "shape": shapeName, "order": order})
 					L := m.Latencies
